@@ -63,6 +63,27 @@ theorem height_spec {g : Graph} (hb : Built g) {c : Addr} {cc : Commit} (hc : lo
       refine ⟨pc.addr, ?_, pc, hlk, by rw [hh, ← hpe]⟩
       rw [← hmap]; exact List.mem_map.2 ⟨pc, hpc, rfl⟩
 
+/-- every stored commit has height at least 1 -/
+theorem height_pos {g : Graph} (hb : Built g) {c : Addr} {cc : Commit} (hc : lookup g c = some cc) :
+    1 ≤ cc.height := by
+  obtain ⟨h0, _, h2⟩ := height_spec hb hc
+  by_cases hp : cc.parents = []
+  · rw [h0 hp]; exact Nat.le_refl 1
+  · obtain ⟨_, _, pc, _, hh⟩ := h2 hp
+    omega
+
+/-- **height_one_iff_root.**  Height 1 is carried by the root commits and by nothing else: a commit
+with at least one parent has height ≥ 2. -/
+theorem height_one_iff_root {g : Graph} (hb : Built g) {c : Addr} {cc : Commit} (hc : lookup g c = some cc) :
+    cc.height = 1 ↔ cc.parents = [] := by
+  obtain ⟨h0, _, h2⟩ := height_spec hb hc
+  refine ⟨fun h1 => ?_, h0⟩
+  by_cases hp : cc.parents = []
+  · exact hp
+  · obtain ⟨_, _, pc, hpc, hh⟩ := h2 hp
+    have := height_pos hb hpc
+    omega
+
 /-- **height_above_ancestors.**  Heights strictly increase along every ancestor chain. -/
 theorem height_above_ancestors {g : Graph} (hb : Built g) {a c : Addr} (h : Anc g a c)
     {ac cc : Commit} (ha : lookup g a = some ac) (hc : lookup g c = some cc) : ac.height < cc.height :=
